@@ -560,9 +560,13 @@ class cleanup_functools_wrapper(object):
             _verif.emit('WindowExit', obj=id(self.func))
 
 
+_MAX_DEPTH = 32
+
+
 class _InProgress(threading.local):
     def __init__(self):
         self.funcs = set()
+        self.depth = 0
 
 _in_progress = _InProgress()
 
@@ -572,12 +576,15 @@ def autoforwards_function(func, args, kwargs):
     # back to it) tells nothing about its own parameters
     key = (id(func), tuple(id(arg) for arg in args),
            tuple(sorted((name, id(arg)) for name, arg in kwargs.items())))
-    if key in _in_progress.funcs:
+    if key in _in_progress.funcs or _in_progress.depth >= _MAX_DEPTH:
+        # (or forwards to itself with other arguments each time)
         raise UnknownForwards
     _in_progress.funcs.add(key)
+    _in_progress.depth += 1
     try:
         return _autoforwards_function(func, args, kwargs)
     finally:
+        _in_progress.depth -= 1
         _in_progress.funcs.discard(key)
 
 
